@@ -60,6 +60,27 @@ def natural_matrix(ctx):
                      field=0.2, current=0.5, steps=4, screening=True, screening_tol=1e-2))
     runs.append(dict(label="bar/seeded psi: 0 -> 1/adaptive-retries", dev="bar", field=0.6, current=6.0, adaptive=ad, seed_time=0.2,
                      ramp=None, seed_chain=[[0.0, 0.0]], terminal_psi=[1.0, 0.0]))
+    # devices whose length unit is not the coherence length (mesh.sites are dimensionless: positions / xi), and a Device
+    # that is meshed, inspected and meshed again (refinement loop): the terminal sites are the boundary sites of the
+    # CURRENT mesh whose physical position lies in a terminal polygon (harness oracle, independent of the device code)
+    for xi in (0.5, 2.0):
+        for name, v in (("0", [0.0, 0.0]), ("0.6+0.2j", [0.6, 0.2]), ("None", "none")):
+            runs.append(dict(label=f"bar/xi={xi}/psi={name}", dev="bar", xi=xi, field=0.5, current=2.0, steps=6, ramp=None, terminal_psi=v))
+    runs.append(dict(label="tee/xi=0.5/psi=1/screening", dev="tee", xi=0.5, field=0.2, current=0.0, steps=3, ramp=None,
+                     terminal_psi=[1.0, 0.0], screening=True, screening_tol=1e-2))
+    for name, v in (("0", [0.0, 0.0]), ("1", [1.0, 0.0]), ("None", "none")):
+        runs.append(dict(label=f"bar/meshed twice (1.5 -> 0.7)/psi={name}", dev="bar", remesh=[1.5, 0.7], field=0.5, current=2.0,
+                         steps=6, ramp=None, terminal_psi=v))
+    runs.append(dict(label="barhole/xi=2/meshed twice (1.6 -> 0.9)/psi=0", dev="barhole", xi=2.0, remesh=[1.6, 0.9], field=0.5,
+                     current=2.0, steps=6, ramp=None, terminal_psi=[0.0, 0.0]))
+    if not ctx.quick:
+        for dev in ("barhole", "tee", "cross"):
+            for xi in (0.5, 2.0, 3.0):
+                for name, v in (("0", [0.0, 0.0]), ("0.3j", [0.0, 0.3]), ("None", "none")):
+                    runs.append(dict(label=f"{dev}/xi={xi}/psi={name}", dev=dev, xi=xi, field=0.6, current=(3.0 if dev == "barhole" else 0.0),
+                                     steps=12, ramp=None, terminal_psi=v))
+            runs.append(dict(label=f"{dev}/meshed three times/psi=0", dev=dev, remesh=[1.6, 1.0, 0.6], field=0.6,
+                             current=(3.0 if dev == "barhole" else 0.0), steps=10, ramp=None, terminal_psi=[0.0, 0.0]))
     # equivalent API forms of configuring the terminal value: keyword (all runs above), attribute assignment after
     # construction (None -> value, value -> None, value -> other value), dataclasses.replace, copy / deepcopy / pickle
     # of an options object, options read back from a Solution file
@@ -153,6 +174,16 @@ def solver_level(ctx):
             not any(t["seed"] == "other" and t["v"] == "zero" for t in nat_traces) or \
             not any(t["info"]["seeded"] and t["v"] == "none" for t in nat_traces):
         raise core.MachineryFailure("C06: seeded runs whose terminal values differ from the configured one are missing")
+    # vacuity guards of the device dimensions: the oracle must find terminal sites on every device with terminals;
+    # xi != 1 and re-meshed devices (with MORE terminal sites after the second meshing) must be present
+    for a, t in zip(nat, nat_traces):
+        if t["mode"] != "none" and t["info"]["terminal_sites"] < 4:
+            raise core.MachineryFailure(f"C06: the geometric oracle finds {t['info']['terminal_sites']} terminal sites in {a['label']}")
+    if sum(1 for t in nat_traces if t["mode"] != "none" and t["info"]["xi"] != 1.0) < 4:
+        raise core.MachineryFailure("C06: devices with coherence_length != 1 length unit are missing")
+    if sum(1 for t in nat_traces if t["info"]["remeshed"] and t["info"]["remeshed"][-1][1] > t["info"]["remeshed"][0][1]
+           and t["info"]["remeshed"][-1][0] != t["info"]["remeshed"][0][0]) < 2:
+        raise core.MachineryFailure("C06: re-meshed devices whose second mesh has more terminal sites are missing")
     forms = {(t["form"], t["v0"] == "none", t["v"] == "none") for t in nat_traces}
     if not {("assign", False, True), ("assign", True, False)} <= forms or \
             not {"replace", "copy", "deepcopy", "pickle", "file"} <= {f for f, _, _ in forms}:
